@@ -121,6 +121,14 @@ def run(spec, strace=True, probe=False):
     def timed_call(command, timeout=5.0, **props):
         t0 = time.time()
         r = orig_call(command, timeout=timeout, **props)
+        tries = 0
+        while r.get('status') == 'error' and 'arbiter is already running' in str(r.get('reason')) and tries < 100:
+            # refused because the periodic check (or an operation sent without waiting) holds the slot: what a client
+            # does is try again; C10 owns the refusal itself
+            tries += 1
+            rec['conflict_retries'] = rec.get('conflict_retries', 0) + 1
+            time.sleep(0.1)
+            r = orig_call(command, timeout=timeout, **props)
         if command not in ('status', 'list', 'numprocesses', 'stats'):
             rec['calls'].append((command, props.get('name'), t0, time.time() - t0, r.get('status'), str(r.get('reason'))[:80],
                                  timeout))
